@@ -46,6 +46,7 @@ pub fn mut_name(m: &Mutation) -> &'static str {
         Mutation::TruncateFramed(_) => "trunc_framed",
         Mutation::TruncateRaw(_) => "trunc_raw",
         Mutation::ExtendFramed(_) => "extend",
+        Mutation::SumEdge { .. } => "sum_edge",
     }
 }
 
